@@ -26,9 +26,16 @@ class Entry:
         self.name, self.sort, self.params, self.mod, self.ref = name, sort, params, mod, ref
 
 
+def AE(key, val, ty, w="inline"):
+    return {"key": key, "val": val, "ty": ty, "w": w}
+
+
 class Gen:
-    def __init__(self, rng, p_bad=0.04, max_depth=3):
+    def __init__(self, rng, p_bad=0.04, max_depth=3, p_ann=0.0, shadow=0.0):
         self.rng = rng
+        self.p_ann = p_ann
+        self.shadow = shadow          # probability that a binder takes the name of another binder in scope
+        self.nann = 0
         self.p_bad = p_bad
         self.max_depth = max_depth
         self.env = []            # entries visible where we are generating
@@ -76,7 +83,38 @@ class Gen:
     def expr(self, sort, d):
         if self.chance(self.p_bad):
             sort = self.pick(["schema", "obj", "content", "xfer", "rel", "uri", "status", "text", "prop"])
-        return getattr(self, "g_" + sort)(d)
+        return self.annotate(getattr(self, "g_" + sort)(d))
+
+    def annotate(self, n):
+        """annotations written on literal constructs (not on uses of names: the precedence of use-site annotations through
+        parameters is the subject of known findings)"""
+        if self.p_ann <= 0 or not self.chance(self.p_ann) or n.get("ann"):
+            return n
+        self.nann += 1
+        k = self.nann
+        w = self.pick(["inline", "inline", "line"])
+        anns = []
+        if n["k"] == "prim":
+            if n["s"] in ("num", "int"):
+                anns = [AE("minimum", str(k % 7), "n", w)] + ([AE("maximum", str(10 + k), "n", w)] if k % 2 else [])
+            elif n["s"] == "str":
+                anns = [AE("pattern", "^p%d+$" % k, "s", w)] if k % 2 else [AE("minLength", str(k % 5), "n", w), AE("format", "date", "s", w)]
+            anns.append(AE("description", "prim %d" % k, "s", w))
+        elif n["k"] in ("obj", "arr"):
+            anns = [AE("description", "desc %d" % k, "s", w)] + ([AE("title", "title %d" % k, "s", w)] if k % 2 else [])
+        elif n["k"] == "op" and n["s"] in ("|", "~", "&"):
+            anns = [AE("title", "op %d" % k, "s", w)]
+        elif n["k"] == "prop":
+            anns = [AE("description", "prop %d" % k, "s", "line")] + ([AE("required", "true" if k % 2 else "false", "b", "line")] if k % 3 == 0 else [])
+        elif n["k"] == "cnt":
+            anns = [AE("description", "content %d" % k, "s", w)]
+        elif n["k"] == "xfer":
+            anns = [AE("summary", "sum %d" % k, "s", "line")] + ([AE("operationId", "op%d" % k, "s", "line")] if "," not in n["s"] else []) + ([AE("tags", "t%d,u%d" % (k % 3, k % 2), "l", "line")] if k % 2 else []) \
+                + ([AE("description", "xfer %d" % k, "s", "line")] if k % 3 == 0 else [])
+        if anns:
+            n = dict(n)
+            n["ann"] = anns
+        return n
 
     # ---- sorts --------------------------------------------------------------------------------
     def g_schema(self, d):
@@ -98,6 +136,10 @@ class Gen:
                 return self.g_rel(d - 1)
             if r < 0.93 and d >= 2:
                 x = "r%d" % len(self.recs)
+                if self.shadow and self.chance(self.shadow):
+                    names = [e.name for e in self.env if not e.name.startswith("@")] + list(self.recs)
+                    if names:
+                        x = self.pick(names)
                 self.recs.append(x)
                 body = N("obj", a=[N("prop", "val", n=0, a=[self.expr("schema", d - 2)]),
                                    N("prop", "next", n=self.pick([0, 2]), a=[self.pick([N("var", x), N("arr", a=[N("var", x)])])])])
@@ -236,15 +278,28 @@ class Gen:
         if params:
             for i, s in enumerate(params):
                 pn = "x%d" % (i + 1)
+                if self.shadow and self.chance(self.shadow):
+                    names = [e.name for e in saved_env if not e.name.startswith("@") and e.name not in ps]
+                    if names:
+                        pn = self.pick(names)
                 ps.append(pn)
                 self.env.append(Entry(pn, s, None, self.cur))
         self.self_name = name if (sort in ("schema", "obj") and not params and self.chance(0.3)) else None
         body = self.expr(sort, d)
         self.self_name = None
         self.env = saved_env
+        dann = []
+        # (not on aliases and applications: annotations that reach a shared recursive component from a use site are the
+        # subject of a directed family member and a known finding)
+        if self.p_ann > 0 and sort in ("schema", "obj") and body["k"] not in ("var", "app") and self.chance(self.p_ann):
+            self.nann += 1
+            dann = [AE("description", "decl %d" % self.nann, "s", "line")]
         if ref:
-            return N("decl", name, "@", 0, [body])
-        return N("decl", name, "", len(ps), [N("bind", p) for p in ps] + [body])
+            st = N("decl", name, "@", 0, [body])
+        else:
+            st = N("decl", name, "", len(ps), [N("bind", p) for p in ps] + [body])
+        st["ann"] = dann
+        return st
 
     def module(self, mod, ndecl, prefix):
         self.cur = mod
@@ -286,11 +341,11 @@ class Gen:
         return {"main": "m1", "mods": mods}
 
 
-def programs(seed, count, p_bad=0.04, max_depth=3):
+def programs(seed, count, p_bad=0.04, max_depth=3, p_ann=0.0, shadow=0.0):
     rng = random.Random(seed)
     out = []
     for _ in range(count):
-        g = Gen(random.Random(rng.getrandbits(48)), p_bad=p_bad, max_depth=max_depth)
+        g = Gen(random.Random(rng.getrandbits(48)), p_bad=p_bad, max_depth=max_depth, p_ann=p_ann, shadow=shadow)
         out.append(g.program())
     return out
 
